@@ -28,6 +28,7 @@ type c08Name struct {
 	replies  []c08Reply // k-th upstream fetch gets replies[k % len]
 	instants []time.Duration
 	fetches  atomic.Int32
+	twin     bool // a second client asks at the first instant as well: two misses at once, two fetches, two stores
 }
 
 type c08Fetch struct {
@@ -106,6 +107,10 @@ func TestVfC08Timed(t *testing.T) {
 			m.Bits |= vfkit.BitTC
 		}
 		fetches.Store(uint32(q.Seq), &c08Fetch{name: n, reply: r, sentAt: time.Now()})
+		if n.twin && k == 1 {
+			// the second of two simultaneous fetches is answered a little later, so that its answer is stored over the first's
+			return UpAction{Reply: EncodeMsg(m), Delay: 25 * time.Millisecond}
+		}
 		return UpAction{Reply: EncodeMsg(m)}
 	})
 	if err != nil {
@@ -157,6 +162,13 @@ func TestVfC08Timed(t *testing.T) {
 			for k := rapid.IntRange(3, 8).Draw(t, "nQueries"); k > 0; k-- {
 				n.instants = append(n.instants, time.Duration(rapid.IntRange(0, 9000).Draw(t, "atMs"))*time.Millisecond)
 			}
+			if rapid.IntRange(0, 5).Draw(t, "twin") == 0 {
+				n.twin = true
+				if rapid.Bool().Draw(t, "twinLongThenShort") {
+					// the answer stored second lives much shorter than the one it replaces
+					n.replies = []c08Reply{{ttls: []uint32{rapid.SampledFrom([]uint32{5, 8}).Draw(t, "ttlFirst")}, nsTTL: -1}, {ttls: []uint32{rapid.SampledFrom([]uint32{0, 1, 2}).Draw(t, "ttlSecond")}, nsTTL: -1}}
+				}
+			}
 			all[i] = n
 			names.Store(n.label, n)
 		}
@@ -189,6 +201,33 @@ func TestVfC08Timed(t *testing.T) {
 							ins[i], ins[j] = ins[j], ins[i]
 						}
 					}
+				}
+				if n.twin {
+					wg.Add(1)
+					go func() {
+						defer wg.Done()
+						a := NewAsker(P.ip, "")
+						defer a.Close()
+						time.Sleep(time.Until(start.Add(ins[0])))
+						tq := time.Now()
+						res := a.Ask("tcp", Query(999, vfkit.Name{[]byte(n.label), []byte("aging"), []byte("test")}, 1, 1, false), 8*time.Second, 0)
+						o := obs{n: n, tq: tq, tr: time.Now()}
+						if res.Err == nil && len(res.Resps) == 1 {
+							o.r = res.Resps[0]
+							for _, rr := range o.r.Msg.Ar {
+								if rr.Type == 16 {
+									d := &vfkit.Decoded{}
+									d.An = []vfkit.RR{{Type: 1}, rr}
+									if _, _, s, ok := ParseKeyed(d); ok {
+										o.serial, o.ok = s, true
+									}
+								}
+							}
+						}
+						mu.Lock()
+						observations = append(observations, o)
+						mu.Unlock()
+					}()
 				}
 				for qi, at := range ins {
 					time.Sleep(time.Until(start.Add(at)))
